@@ -281,3 +281,32 @@ func H_roundChain(o, n int) {
 	}
 	c17Check(&ast.DataRefNode{Key: "a", Access: acc})
 }
+
+// H_roundPrintOps: a print command whose expression is operator o over operator i (in operand
+// position pos) - such commands start with a parenthesis, a sign or a keyword when printed.
+func H_roundPrintOps(o, i, pos int) {
+	inner := c17Op(i, dref("x"), &ast.IntNode{Value: 2}, dref("y"))
+	ops := []ast.Node{dref("a"), &ast.IntNode{Value: 1}, dref("b")}
+	arity := 2
+	if o == 14 || o == 15 {
+		arity = 1
+	} else if o == 16 {
+		arity = 3
+	}
+	if pos >= arity {
+		return
+	}
+	ops[pos] = inner
+	p := &ast.PrintNode{Arg: c17Op(o, ops[0], ops[1], ops[2])}
+	src := "{namespace n}\n/** */\n{template .t}\n" + p.String() + "\n{/template}\n"
+	verifObserve("print", p.String())
+	f, err := SoyFile("p.soy", src)
+	verifAssert(err == nil, "printed print command does not parse")
+	var got *ast.PrintNode
+	for _, n := range f.Body {
+		if t, ok := n.(*ast.TemplateNode); ok && len(t.Body.Nodes) == 1 {
+			got, _ = t.Body.Nodes[0].(*ast.PrintNode)
+		}
+	}
+	verifAssert(got != nil && sameTree(got.Arg, p.Arg), "printed print command parses to a different tree")
+}
